@@ -50,7 +50,7 @@ impl TraitHandler for PartialOrdEnumHandler {
                     Fields::Unit => {
                         arms_token_stream.extend(quote! {
                             Self::#variant_ident => {
-                                return Some(::core::cmp::Ordering::Equal);
+                                return ::core::option::Option::Some(::core::cmp::Ordering::Equal);
                             }
                         });
                     },
@@ -116,10 +116,10 @@ impl TraitHandler for PartialOrdEnumHandler {
 
                             block_token_stream.extend(quote! {
                                 match #partial_cmp(#field_name_var_self, #field_name_var_other) {
-                                    Some(::core::cmp::Ordering::Equal) => (),
-                                    Some(::core::cmp::Ordering::Greater) => return Some(::core::cmp::Ordering::Greater),
-                                    Some(::core::cmp::Ordering::Less) => return Some(::core::cmp::Ordering::Less),
-                                    None => return None,
+                                    ::core::option::Option::Some(::core::cmp::Ordering::Equal) => (),
+                                    ::core::option::Option::Some(::core::cmp::Ordering::Greater) => return ::core::option::Option::Some(::core::cmp::Ordering::Greater),
+                                    ::core::option::Option::Some(::core::cmp::Ordering::Less) => return ::core::option::Option::Some(::core::cmp::Ordering::Less),
+                                    ::core::option::Option::None => return ::core::option::Option::None,
                                 }
                             });
                         }
@@ -190,10 +190,10 @@ impl TraitHandler for PartialOrdEnumHandler {
 
                             block_token_stream.extend(quote! {
                                 match #partial_cmp(#field_name, #field_name2) {
-                                    Some(::core::cmp::Ordering::Equal) => (),
-                                    Some(::core::cmp::Ordering::Greater) => return Some(::core::cmp::Ordering::Greater),
-                                    Some(::core::cmp::Ordering::Less) => return Some(::core::cmp::Ordering::Less),
-                                    None => return None,
+                                    ::core::option::Option::Some(::core::cmp::Ordering::Equal) => (),
+                                    ::core::option::Option::Some(::core::cmp::Ordering::Greater) => return ::core::option::Option::Some(::core::cmp::Ordering::Greater),
+                                    ::core::option::Option::Some(::core::cmp::Ordering::Less) => return ::core::option::Option::Some(::core::cmp::Ordering::Less),
+                                    ::core::option::Option::None => return ::core::option::Option::None,
                                 }
                             });
                         }
@@ -211,7 +211,8 @@ impl TraitHandler for PartialOrdEnumHandler {
         }
 
         if arms_token_stream.is_empty() {
-            partial_cmp_token_stream.extend(quote!(Some(::core::cmp::Ordering::Equal)));
+            partial_cmp_token_stream
+                .extend(quote!(::core::option::Option::Some(::core::cmp::Ordering::Equal)));
         } else {
             let discriminant_cmp =
                 discriminant_type.create_cmp(ast, discriminant_values.as_deref());
@@ -219,9 +220,9 @@ impl TraitHandler for PartialOrdEnumHandler {
             partial_cmp_token_stream.extend(if all_unit {
                 quote! {
                     match #discriminant_cmp {
-                        ::core::cmp::Ordering::Equal => Some(::core::cmp::Ordering::Equal),
-                        ::core::cmp::Ordering::Greater => Some(::core::cmp::Ordering::Greater),
-                        ::core::cmp::Ordering::Less => Some(::core::cmp::Ordering::Less),
+                        ::core::cmp::Ordering::Equal => ::core::option::Option::Some(::core::cmp::Ordering::Equal),
+                        ::core::cmp::Ordering::Greater => ::core::option::Option::Some(::core::cmp::Ordering::Greater),
+                        ::core::cmp::Ordering::Less => ::core::option::Option::Some(::core::cmp::Ordering::Less),
                     }
                 }
             } else {
@@ -232,10 +233,10 @@ impl TraitHandler for PartialOrdEnumHandler {
                                 #arms_token_stream
                             }
 
-                            Some(::core::cmp::Ordering::Equal)
+                            ::core::option::Option::Some(::core::cmp::Ordering::Equal)
                         },
-                        ::core::cmp::Ordering::Greater => Some(::core::cmp::Ordering::Greater),
-                        ::core::cmp::Ordering::Less => Some(::core::cmp::Ordering::Less),
+                        ::core::cmp::Ordering::Greater => ::core::option::Option::Some(::core::cmp::Ordering::Greater),
+                        ::core::cmp::Ordering::Less => ::core::option::Option::Some(::core::cmp::Ordering::Less),
                     }
                 }
             });
@@ -262,7 +263,7 @@ impl TraitHandler for PartialOrdEnumHandler {
         token_stream.extend(quote! {
             impl #impl_generics ::core::cmp::PartialOrd for #ident #ty_generics #where_clause {
                 #[inline]
-                fn partial_cmp(&self, other: &Self) -> Option<::core::cmp::Ordering> {
+                fn partial_cmp(&self, other: &Self) -> ::core::option::Option<::core::cmp::Ordering> {
                     #partial_cmp_token_stream
                 }
             }
